@@ -162,24 +162,36 @@ Proof. split; eexists; vm_compute; reflexivity. Qed.
 (* ---- extension to template bodies (the property's text speaks of expressions and print
    commands; this is the same statement for the command forms whose String() is source syntax
    the parser accepts again: raw text, print, {log}, {debugger}, {let} in both forms,
-   {if}/{elseif}/{else}, {for}/{ifempty}, nested to any depth).  Model/Parser.v's itemList
-   (parse.go itemList / textOrTag / beginTag and the command parsers, same next/backup/peek
-   order as the Go code), started in ANY parser state outside a {msg} that delivers the items
-   of a well-formed body followed by "{" and an item u that ends the list, returns that body
-   itself for every fuel above some bound, has consumed "{" and u, and leaves the items that
-   follow.  Not covered: {switch} (its default case prints as "{case }"), {call}, {msg}, {css},
-   templates, soydoc, namespace -- see notes/astprint-reparse.md. ---- *)
+   {if}/{elseif}/{else}, {for}/{ifempty}, {switch}/{case}/{default}, {call} with data="all" /
+   data="e" and {param k: e/} / {param k}..{/param}, {css}, {msg} without {plural}, nested to any depth).
+   Model/Parser.v's itemList (parse.go itemList / textOrTag / beginTag and the command parsers,
+   same next/backup/peek order as the Go code), started in ANY parser state (inside or outside a
+   {msg}: flag m) that delivers the items of a well-formed body followed by "{" and an item u
+   that ends the list, returns that body itself for every fuel above some bound, has consumed
+   "{" and u, and leaves the items that follow; the state is unchanged but for the token plumbing
+   and the log of nested scanners.
+   External functions enter with their contracts: efuel (budget of the nested expression parse of
+   data="e" / {css e, x}: enough whenever some budget is), unq (strconv.Unquote inverts
+   strconv.Quote on the printer model's domain); lexq (the nested scanner) enters through
+   wf_body's clause quoted_ok: it reads the printed text of the expression as the expression's items.
+   {msg meaning= desc=} with raw text, html tags and command placeholders is covered ({msg} reads its
+   body with tree.inmsg set and placeholderizes it; the theorem shows the children come back).
+   Not covered: {plural} inside {msg}, templates, soydoc, namespace -- see notes/astprint-reparse.md. ---- *)
 Theorem C17_parse_body_roundtrip_partial :
-  forall (inlen : N) (lexq : bstr -> list tok) (unq : bstr -> option bstr) (efuel : list tok -> nat)
-         x until u rest,
-  wf_body x -> good_until until = true -> one_of (t_typ u) until = true ->
-  forall s, stream (c_p s) = body_toks x ++ T_ldelim :: u :: rest -> inv (c_p s) -> c_inmsg s = false ->
-  exists p', stream p' = rest /\ inv p' /\
-    exists f0, forall f, (f0 <= f)%nat -> item_list inlen lexq unq parse_expr efuel f until s = COk x (set_p s p').
+  forall (ns : bstr) (al : list (bstr * bstr)) (inlen : N) (lexq : bstr -> list tok) (unq : bstr -> option bstr) (efuel : list tok -> nat),
+  (forall ts e rest, Parses 0 ts e rest -> exists p', parse_expr (efuel ts) 0 (pst_init ts) = POk e p') ->
+  (forall s q, go_quote s = Some q -> unq q = Some s) ->
+  forall m x until u rest,
+  wf_body lexq (nameok ns al) m x -> good_until until = true -> one_of (t_typ u) until = true ->
+  forall s, stream (c_p s) = body_toks x ++ T_ldelim :: u :: rest -> inv (c_p s) ->
+            c_inmsg s = m -> c_ns s = ns -> c_al s = al ->
+  exists p' sc', stream p' = rest /\ inv p' /\
+    exists f0, forall f, (f0 <= f)%nat -> item_list inlen lexq unq parse_expr efuel f until s = COk x (set_ps s p' sc').
 Proof.
-  intros inlen lexq unq efuel x until u rest Hwf Hg Hu s Hs Hi Hm.
-  destruct (parse_body_roundtrip inlen lexq unq efuel x until u rest Hwf Hg Hu s Hs Hi Hm) as (p' & H1 & H2 & _ & _ & f0 & HF).
-  exists p'. split; [exact H1|]. split; [exact H2|]. exists f0. intros f Hf. exact (HF f f Hf Hf).
+  intros ns al inlen lexq unq efuel Hef Hunq m x until u rest Hwf Hg Hu s Hs Hi Hm Hns Hal.
+  destruct (parse_body_roundtrip ns al inlen lexq unq efuel Hef Hunq m x until u rest Hwf Hg Hu s (c_p s) (c_scans s) Hs Hi (conj Hm (conj Hns Hal)))
+    as (p' & sc' & H1 & H2 & _ & _ & f0 & HF).
+  exists p', sc'. split; [exact H1|]. split; [exact H2|]. exists f0. intros f Hf. rewrite <- (HF f f Hf Hf), set_ps_eta. reflexivity.
 Qed.
 Print Assumptions C17_parse_body_roundtrip_partial.
 
@@ -190,6 +202,11 @@ Example C17_until_lists_good :
 Proof. vm_compute. reflexivity. Qed.
 
 (* non-vacuity: a body with every covered form, well-formed, printed, and read back by computation *)
+(* the nested scanner of the example: lexExpr("$d") *)
+Definition ex_lexq (s : bstr) : list tok :=
+  if bstr_eqb s (b "$d") then [tk pk_itemDollarIdent 2 (b "$d"); tk pit_Error 2 (b "unclosed tag")] else [].
+Definition ex_unq (q : bstr) : option bstr := match q with _ :: r => Some (removelast r) | [] => None end.
+
 Definition ex_body : node :=
   NList 5 [ NRawText 5 (b "Hi ");
             NPrint 7 (NDataRef 7 (b "a") []) [NDirective 8 (b "truncate") [NInt 9 5]];
@@ -199,24 +216,41 @@ Definition ex_body : node :=
             NFor 20 (b "i") (NFunc 21 (b "range") [NInt 22 3])
                  (NList 0 [NLetValue 23 (b "v") (NBin OAdd 25 (NDataRef 24 (b "i") []) (NInt 26 1)); NPrint 27 (NDataRef 27 (b "v") []) []])
                  (Some (NList 28 [NRawText 28 (b "none")]));
-            NLetContent 30 (b "w") (NList 0 [NLog 31 (NList 32 [NRawText 32 (b "in log")])]) ].
+            NLetContent 30 (b "w") (NList 0 [NLog 31 (NList 32 [NRawText 32 (b "in log")])]);
+            NSwitch 40 (NDataRef 41 (b "k") [])
+                 [ NSwitchCase 42 [NInt 43 1; NInt 44 2] (NList 45 [NRawText 45 (b "one")]);
+                   NSwitchCase 46 [] (NList 0 [NCss 47 None (b "cls")]) ];
+            NCall 50 (b "ns.other") false (Some (NDataRef 2 (b "d") []))
+                 [ NParamValue 51 (b "k") (NInt 52 1);
+                   NParamContent 53 (b "c") (NList 0 [NCss 54 (Some (NDataRef 2 (b "d") [])) (b "suf")]) ];
+            NCall 60 (b "ns.third") true None [];
+            NMsg 70 0 (b "verb") (b "greeting, imperative")
+                 [ NRawText 71 (b "Click "); NMsgPlaceholder 77 [] (NMsgHtmlTag 77 (b "<a href=x>"));
+                   NMsgPlaceholder 88 [] (NPrint 88 (NDataRef 88 (b "label") []) []);
+                   NMsgPlaceholder 89 [] (NMsgHtmlTag 89 (b "</a>")); NRawText 93 (b " now") ] ].
 
-Example C17_body_wf_nonvacuous : wf_body ex_body.
+Example C17_body_wf_nonvacuous : wf_body ex_lexq (nameok (b "ns") []) false ex_body.
 Proof.
-  cbn. unfold key_ok, float_ok.
+  cbn -[msg_raw_text rawtext_run go_quote print_node trim_space run_text run_pos split_dots].
+  unfold key_ok, float_ok, quoted_ok, call_name_ok, nameok, plain, no_byte, run_ok.
   repeat match goal with
+         | H : _ :: _ = [] |- _ => discriminate H
          | |- _ /\ _ => split
          | |- True => exact I
+         | |- exists _, _ => eexists
+         | Ha : c_al ?s = _ |- resolve_name ?s _ = _ => unfold resolve_name; rewrite Ha; vm_compute; reflexivity
+         | |- forall _, _ => intro
+         | |- wf_expr _ => cbn
          | |- _ = _ => vm_compute; reflexivity
-         | |- _ <> _ => discriminate
+         | |- _ <> _ => vm_compute; discriminate
          end.
 Qed.
 
 Example C17_body_prints_nonvacuous :
-  print_tree ex_body = Some (b "Hi {$a|truncate:5}{if $a and not $b}x{elseif $c}{else}{debugger}{/if}{for $i in range(3)}{let $v: $i + 1 /}{$v}{ifempty}none{/for}{let $w}{log}in log{/log}{/let}").
+  print_tree ex_body = Some (b "Hi {$a|truncate:5}{if $a and not $b}x{elseif $c}{else}{debugger}{/if}{for $i in range(3)}{let $v: $i + 1 /}{$v}{ifempty}none{/for}{let $w}{log}in log{/log}{/let}{switch $k}{case 1,2}one{case }{css cls}{/switch}{call ns.other data=""$d""}{param k: 1/}{param c}{css $d, suf}{/param}{/call}{call ns.third data=""all""/}{msg meaning=""verb"" desc=""greeting, imperative""}Click <a href=x>{$label}</a> now{/msg}").
 Proof. vm_compute. reflexivity. Qed.
 
 Example C17_body_roundtrip_nonvacuous :
-  exists s, item_list 0 (fun _ => []) (fun _ => None) parse_expr (fun _ => 0%nat) 60 u_template
+  exists s, item_list 0 ex_lexq ex_unq parse_expr (fun _ => 20%nat) 60 u_template
               (cst_init (body_toks ex_body ++ [T_ldelim; kw pit_TemplateEnd 0; T_rdelim])) = COk ex_body s.
 Proof. eexists. vm_compute. reflexivity. Qed.
